@@ -102,7 +102,7 @@ def entities(rng, tame=False):
 
     pl = [{"name": nm, "v6": v6, "members": [pm(v6) for _ in range(rng.randint(1, 3))]}
           for nm, v6 in (("P4a", False), ("P4b", False), ("P6a", True), ("P6b", True))]
-    af = [{"name": nm, "filters": rng.sample([".*", "65000", "123", "4200000000"], rng.randint(1, 3))}
+    af = [{"name": nm, "filters": rng.sample([".*", "65000", "123", "4200000000", "6500[0-9]", "(64512|64513)", "_65001_"], rng.randint(1, 3))}
           for nm in ("AS1", "AS2")]
     rd = [{"name": nm, "number": i + 1, "members": [f"{rng.randint(1, 99)}:{rng.randint(1, 99)}"
                                                     for _ in range(rng.randint(1, 2))]}
